@@ -44,7 +44,7 @@ def pwc_exact_at_samples(x, y, new_x, left, result):
 # ---------------------------------------------------------------------------- interpolate
 
 contract(INTERP, params=dict(x=Seq(Real, kind='arraylike'), y=Seq(Real, kind='arraylike'), new_x=Seq(Real, kind='arraylike'),
-                             method=Str, kwargs=Kwargs), returns=Seq(Real))
+                             method=Str, kwargs=Kwargs), returns=Seq(Real), generator='gen_interp_fn')
 
 
 @requires(INTERP)
@@ -85,6 +85,13 @@ def interp_linear(x, y, new_x, method, kwargs, result):
                    ((result[j] == y[len(x) - 1]) if new_x[j] >= x[len(x) - 1] else
                     exists(range(len(x) - 1), lambda k: x[k] <= new_x[j] and new_x[j] <= x[k + 1]
                            and eq(result[j], y[k] + (y[k + 1] - y[k]) * (new_x[j] - x[k]) / (x[k + 1] - x[k]))))))
+
+
+@ensures(INTERP, assumed='bounded: run-time monitoring on generated inputs only (the numerics of numpy.interp / CubicSpline / '
+                         'splrep are library behaviour)')
+def interp_affine_rt_c13(x, y, new_x, method, kwargs, result):
+    """every method except 'constant' reproduces affine data (to rounding), for grids inside and beyond the data range"""
+    return NRT.affine_reproduced(x, y, new_x, method, result)
 
 
 # --------------------------------------------------------------------------- spline_smooth
@@ -171,6 +178,27 @@ def noise_scale(a, snr, snr_in_db, std, result):
 
 
 # ------------------------------------------------------------------ run-time generators (bounded stand-in only)
+
+def gen_interp_fn(rnd):
+    """series of >= 4 points (uniform or not), affine / arbitrary data, sorted grids inside and beyond the data range that also
+    hit original abscissae, all four methods and an unknown one"""
+    import numpy as np
+    m = rnd.randint(4, 12)
+    x = np.cumsum([rnd.choice([0.25, 0.5, 1.0, 1.0, 2.0, 3.0]) for _ in range(m)]) + rnd.choice([-5.0, 0.0, 2.0, 100.0])
+    if rnd.random() < 0.45:
+        a, b = rnd.choice([-3.0, -0.5, 0.0, 0.25, 1.0, 7.0]), rnd.choice([-10.0, 0.0, 1.5, 40.0])
+        y = a * x + b
+    else:
+        y = np.array([float(rnd.randint(-8, 8)) / 2 for _ in range(m)])
+    span = float(x[-1] - x[0])
+    lo = float(x[0]) - (rnd.choice([0.0, 0.1, 0.5]) * span if rnd.random() < 0.6 else 0.0)
+    hi = float(x[-1]) + (rnd.choice([0.0, 0.1, 0.5]) * span if rnd.random() < 0.6 else 0.0)
+    pts = [round(rnd.uniform(lo, hi), 3) for _ in range(rnd.randint(1, 9))] + [float(v) for v in x if rnd.random() < 0.4]
+    new_x = np.array(sorted(pts))
+    pick = lambda v: v if rnd.random() < 0.7 else v.tolist()    # noqa: E731
+    return dict(x=pick(x), y=pick(y), new_x=pick(new_x), method=rnd.choice(['linear', 'constant', 'cubic', 'spline', 'spline', 'nearest']),
+                kwargs={})
+
 
 def gen_smooth(rnd):
     import numpy as np
